@@ -51,7 +51,7 @@ class C26(EngineACheck):
         "varied because get_context only exists inside a running scheduler",
     ]
     EXPECTED_PROBES = ["programs_reading_context", "programs_with_overrides", "default_arg_getctx"]
-    QUICK_SECONDS = 30.0
+    QUICK_SECONDS = 40.0
 
     def run_one(self, ch: Choices) -> RunOutcome:
         from simkit.progs import walk
